@@ -29,7 +29,7 @@ RULE = ("systematic sweep of the per-POST behaviour matrix (status x content-typ
 PROBES = ["sse_without_event_field", "sse_no_space_after_data", "sse_crlf", "sse_comment_lines", "sse_multiline_data", "sse_multi_event",
           "json_batch_body", "error_status", "transport_exception", "timeout", "redirect_followed", "session_id_changed",
           "request_after_failure_answered", "empty_body", "notification_post_failed", "int_request_id"]
-TIERS = {"quick": {"runs": 2500, "wall": 45.0}, "thorough": {"runs": 120000, "wall": 540.0}}
+TIERS = {"quick": {"runs": 12000, "wall": 45.0}, "thorough": {"runs": 600000, "wall": 560.0}}
 ASSUMPTIONS = [
     "httpx timeouts are raised by the fake at the configured instant (httpcore is bypassed); connection pooling is not simulated",
     "a synthesised terminal message is any single message with the request's id (value and type) and exactly one of result/error",
